@@ -35,7 +35,11 @@ CONSTANTS
     Batch,      \* blocks per SendV2Blocks request (100 in the code)
     ReqH,       \* v2 require height: batches based at or above it use checkpoint + pre-validation
     HistAnchor, \* TRUE: the sample ends with the node's lowest block (as genesis does for a full node)
-    DevOutlineSidechainBan  \* TRUE: named deviation, see RelayOutline
+    DevOutlineSidechainBan, \* TRUE: named deviation, see RelayOutline
+    ZTops,      \* header chains a Byzantine peer may offer end in one of these blocks (Blocks: any)
+    ZRem,       \* values of `remaining = 0` a Byzantine peer may claim (BOOLEAN: any)
+    DevNoPreValidation, \* TRUE: self-test mutation -- batches above the require height are submitted without ValidateBlock
+    Labels      \* TRUE: act carries the transition label (edge export, safety runs with VIEW); FALSE: constant
 
 Nodes == H \cup Z
 Blocks == DOMAIN T.par
@@ -56,6 +60,8 @@ VARIABLES
 vars == <<known, tip, link, round, seen, sync, banned, misb, goal>>
 allvars == <<vars, act>>
 sview == vars
+
+Lbl(x) == IF Labels THEN x ELSE [op |-> "-"]
 
 NoSync == [on |-> FALSE, src |-> CHOOSE n \in Nodes : TRUE, base |-> G, top |-> G, nxt |-> 0, rem0 |-> TRUE]
 
@@ -91,7 +97,7 @@ Init ==
     /\ sync = [n \in H |-> NoSync]
     /\ banned = {}
     /\ misb = {}
-    /\ act = [op |-> "Init"]
+    /\ act = Lbl([op |-> "Init"])
 
 -----------------------------------------------------------------------------
 (* helpers *)
@@ -134,7 +140,7 @@ Connect(a, b) ==
     /\ link[<<a, b>>] = "off"
     /\ <<a, b>> \notin banned /\ <<b, a>> \notin banned
     /\ link' = [link EXCEPT ![<<a, b>>] = "unsynced", ![<<b, a>>] = "unsynced"]
-    /\ act' = [op |-> "Connect", a |-> a, b |-> b]
+    /\ act' = Lbl([op |-> "Connect", a |-> a, b |-> b])
     /\ UNCHANGED <<known, tip, round, seen, sync, banned, misb, goal>>
 
 -----------------------------------------------------------------------------
@@ -148,7 +154,7 @@ SyncTick(n) ==
     /\ \E p \in Nodes : link[<<n, p>>] = "unsynced"
     /\ round' = [round EXCEPT ![n] = {p \in Nodes : link[<<n, p>>] = "unsynced"}]
     /\ seen' = [seen EXCEPT ![n] = {}]
-    /\ act' = [op |-> "SyncTick", n |-> n]
+    /\ act' = Lbl([op |-> "SyncTick", n |-> n])
     /\ UNCHANGED <<known, tip, link, sync, banned, misb, goal>>
 
 StartSync(n, p, base, top, rem0) ==
@@ -164,23 +170,23 @@ HandleRespHonest(n, p) ==
     /\ UNCHANGED <<known, tip, banned, misb, goal>>
     /\ IF link[<<n, p>>] # "unsynced"
          THEN /\ UNCHANGED <<link, sync, seen>>
-              /\ act' = [op |-> "Headers", n |-> n, p |-> p, res |-> "gone"]
+              /\ act' = Lbl([op |-> "Headers", n |-> n, p |-> p, res |-> "gone"])
        ELSE IF Recognised(n, p) = {}
          THEN \* "no common history": the peer is dropped (syncer.go:836,845)
               /\ link' = DropLink(link, n, p)
               /\ UNCHANGED <<sync, seen>>
-              /\ act' = [op |-> "Headers", n |-> n, p |-> p, res |-> "nocommon"]
+              /\ act' = Lbl([op |-> "Headers", n |-> n, p |-> p, res |-> "nocommon"])
        ELSE LET base == CommonId(n, p) IN
             IF base = tip[p]
               THEN /\ link' = [link EXCEPT ![<<n, p>>] = "synced"]
                    /\ UNCHANGED <<sync, seen>>
-                   /\ act' = [op |-> "Headers", n |-> n, p |-> p, res |-> "empty"]
+                   /\ act' = Lbl([op |-> "Headers", n |-> n, p |-> p, res |-> "empty"])
             ELSE IF tip[p] \in seen[n]
               THEN /\ UNCHANGED <<link, sync, seen>>
-                   /\ act' = [op |-> "Headers", n |-> n, p |-> p, res |-> "dup"]
+                   /\ act' = Lbl([op |-> "Headers", n |-> n, p |-> p, res |-> "dup"])
             ELSE /\ StartSync(n, p, base, tip[p], TRUE)
                  /\ UNCHANGED link
-                 /\ act' = [op |-> "Headers", n |-> n, p |-> p, res |-> "sync", base |-> base, top |-> tip[p]]
+                 /\ act' = Lbl([op |-> "Headers", n |-> n, p |-> p, res |-> "sync", base |-> base, top |-> tip[p]])
 
 \* the response (or the timeout) of a Byzantine peer is handled
 HandleRespByz(n, z) ==
@@ -191,27 +197,27 @@ HandleRespByz(n, z) ==
     /\ UNCHANGED <<known, tip, banned, misb, goal>>
     /\ IF link[<<n, z>>] # "unsynced"
          THEN /\ UNCHANGED <<link, sync, seen>>
-              /\ act' = [op |-> "Headers", n |-> n, p |-> z, res |-> "gone"]
+              /\ act' = Lbl([op |-> "Headers", n |-> n, p |-> z, res |-> "gone"])
          ELSE \/ \* HeadersBad: malformed frame, stall (timeout), closed stream, no recognised id,
                  \* headers with insufficient work / broken linkage / bad timestamp: peer dropped
                  /\ link' = DropLink(link, n, z)
                  /\ UNCHANGED <<sync, seen>>
-                 /\ act' = [op |-> "Headers", n |-> n, p |-> z, res |-> "err"]
+                 /\ act' = Lbl([op |-> "Headers", n |-> n, p |-> z, res |-> "err"])
               \/ \* no headers
                  /\ link' = [link EXCEPT ![<<n, z>>] = "synced"]
                  /\ UNCHANGED <<sync, seen>>
-                 /\ act' = [op |-> "Headers", n |-> n, p |-> z, res |-> "empty"]
+                 /\ act' = Lbl([op |-> "Headers", n |-> n, p |-> z, res |-> "empty"])
               \/ \* HeadersOk: any header-valid chain above any of the offered ids, any `remaining`
-                 \E base \in HistIds(n), top \in Blocks, rem0 \in BOOLEAN :
+                 \E base \in HistIds(n), top \in ZTops, rem0 \in ZRem :
                     /\ top # base
                     /\ base \in AncSet(T, top)
                     /\ \A x \in Above(T, top, AncSet(T, base)) : HeaderValid(x)
                     /\ IF top \in seen[n]
                          THEN /\ UNCHANGED <<link, sync, seen>>
-                              /\ act' = [op |-> "Headers", n |-> n, p |-> z, res |-> "dup"]
+                              /\ act' = Lbl([op |-> "Headers", n |-> n, p |-> z, res |-> "dup", base |-> base, top |-> top])
                          ELSE /\ StartSync(n, z, base, top, rem0)
                               /\ UNCHANGED link
-                              /\ act' = [op |-> "Headers", n |-> n, p |-> z, res |-> "sync", base |-> base, top |-> top]
+                              /\ act' = Lbl([op |-> "Headers", n |-> n, p |-> z, res |-> "sync", base |-> base, top |-> top])
 
 -----------------------------------------------------------------------------
 (* parallelSync, parallel_sync.go:17-239 *)
@@ -219,12 +225,12 @@ HandleRespByz(n, z) ==
 \* the batch is served by worker w with exactly the announced blocks and applied
 ApplyBatch(n, w, bs) ==
     LET validated == T.h[T.par[bs[1]]] >= ReqH IN
-    IF validated /\ \E i \in DOMAIN bs : T.cls[bs[i]] # "ok"
+    IF validated /\ ~DevNoPreValidation /\ \E i \in DOMAIN bs : T.cls[bs[i]] # "ok"
       THEN \* consensus.ValidateBlock against the checkpoint-derived state fails: ban, batch discarded
            /\ BanUpd(n, w)
            /\ misb' = IF w \in Z THEN misb \cup {<<n, w>>} ELSE misb
            /\ UNCHANGED <<known, tip, sync>>
-           /\ act' = [op |-> "Fetch", n |-> n, w |-> w, res |-> "invalid"]
+           /\ act' = Lbl([op |-> "Fetch", n |-> n, w |-> w, res |-> "invalid"])
       ELSE LET r == IF validated THEN AddValidatedRes(T, known[n], tip[n], bs)
                                  ELSE AddBlocksRes(T, known[n], tip[n], bs) IN
            /\ known' = [known EXCEPT ![n] = r.known]
@@ -233,10 +239,10 @@ ApplyBatch(n, w, bs) ==
                 THEN /\ BanUpd(n, w)
                      /\ misb' = IF w \in Z THEN misb \cup {<<n, w>>} ELSE misb
                      /\ sync' = [sync EXCEPT ![n] = NoSync]
-                     /\ act' = [op |-> "Fetch", n |-> n, w |-> w, res |-> "rejected"]
+                     /\ act' = Lbl([op |-> "Fetch", n |-> n, w |-> w, res |-> "rejected"])
                 ELSE /\ sync' = [sync EXCEPT ![n].nxt = @ + 1]
                      /\ UNCHANGED <<link, banned, misb>>
-                     /\ act' = [op |-> "Fetch", n |-> n, w |-> w, res |-> "ok"]
+                     /\ act' = Lbl([op |-> "Fetch", n |-> n, w |-> w, res |-> "ok"])
 
 FetchHonest(n, w) ==
     /\ w \in H
@@ -264,7 +270,7 @@ SyncAbort(n) ==
     /\ sync[n].nxt < NBatches(n)
     /\ ~\E w \in H : link[<<n, w>>] = "unsynced" /\ CanServe(w, BatchOf(n))
     /\ sync' = [sync EXCEPT ![n] = NoSync]
-    /\ act' = [op |-> "SyncAbort", n |-> n]
+    /\ act' = Lbl([op |-> "SyncAbort", n |-> n])
     /\ UNCHANGED <<known, tip, link, round, seen, banned, misb, goal>>
 
 \* every batch applied: a peer that sent all its headers is marked synced (syncer.go:855-860)
@@ -274,7 +280,7 @@ SyncDone(n) ==
     /\ link' = IF sync[n].rem0 /\ link[<<n, sync[n].src>>] = "unsynced"
                  THEN [link EXCEPT ![<<n, sync[n].src>>] = "synced"] ELSE link
     /\ sync' = [sync EXCEPT ![n] = NoSync]
-    /\ act' = [op |-> "SyncDone", n |-> n]
+    /\ act' = Lbl([op |-> "SyncDone", n |-> n])
     /\ UNCHANGED <<known, tip, round, seen, banned, misb, goal>>
 
 -----------------------------------------------------------------------------
@@ -287,7 +293,7 @@ Announce(a, b, kind) ==
     /\ tip[a] # G
     /\ LET x == tip[a]
            p == T.par[x]
-       IN /\ act' = [op |-> "Announce", a |-> a, b |-> b, kind |-> kind]
+       IN /\ act' = Lbl([op |-> "Announce", a |-> a, b |-> b, kind |-> kind])
           /\ UNCHANGED <<round, seen, sync, misb, goal>>
           /\ IF p \notin known[b]
                THEN \* unknown parent
@@ -325,7 +331,7 @@ ZRelay(z, n, eff, x) ==
     /\ z \in Z /\ n \in H
     /\ link[<<n, z>>] # "off"
     /\ UNCHANGED <<round, seen, sync, goal>>
-    /\ act' = [op |-> "ZRelay", z |-> z, n |-> n, eff |-> eff, x |-> x]
+    /\ act' = Lbl([op |-> "ZRelay", z |-> z, n |-> n, eff |-> eff, x |-> x])
     /\ eff # "block" => x = G
     /\ CASE eff = "ban" ->
               /\ BanUpd(n, z)
@@ -363,10 +369,22 @@ Fair ==
     /\ \A n \in H : WF_vars(SyncTick(n)) /\ WF_vars(SyncAbort(n)) /\ WF_vars(SyncDone(n))
     /\ \A n \in H, p \in Nodes : WF_vars(HandleRespHonest(n, p)) /\ WF_vars(HandleRespByz(n, p))
     /\ \A n \in H, w \in H : WF_vars(FetchHonest(n, w))
-    /\ \A a, b \in H : WF_vars(Announce(a, b, "hdr"))
+    /\ \A a, b \in H : WF_vars(Announce(a, b, "hdr")) /\ WF_vars(Announce(a, b, "outline"))
 
 Spec == Init /\ [][Next]_allvars
 FairSpec == Spec /\ Fair
+
+\* header announcements only: a node exactly one block behind a peer it has marked synced is
+\* never resynced (a header that attaches to the tip is only relayed on, peer.go:373-380) --
+\* Convergence must FAIL under this spec; the premise needs the outline, as the repository's own
+\* synced() test helper sends it
+FairHeaderOnly ==
+    /\ \A a, b \in H : WF_vars(Connect(a, b))
+    /\ \A n \in H : WF_vars(SyncTick(n)) /\ WF_vars(SyncAbort(n)) /\ WF_vars(SyncDone(n))
+    /\ \A n \in H, p \in Nodes : WF_vars(HandleRespHonest(n, p)) /\ WF_vars(HandleRespByz(n, p))
+    /\ \A n \in H, w \in H : WF_vars(FetchHonest(n, w))
+    /\ \A a, b \in H : WF_vars(Announce(a, b, "hdr"))
+FairSpecHeaderOnly == Spec /\ FairHeaderOnly
 
 \* self-test: without the premise "tips are (re-)announced" a relay that races an in-flight sync is
 \* swallowed and the peer stays marked synced forever -- Convergence must FAIL under this spec
